@@ -4,6 +4,7 @@ import (
 	"fmt"
 	"hash/fnv"
 	"reflect"
+	"sync"
 
 	"pgregory.net/rapid"
 )
@@ -33,6 +34,8 @@ type Spec struct {
 	// Epoch, if set, makes the data mutable: every generated field of object (typ,id) is a
 	// pure function of (id, field seed, args, Epoch(typ,id)). Not serialised.
 	Epoch func(typ string, id int64) int64 `json:"-"`
+	// Intern: hand out one pointer per pool object (see mk).
+	Intern bool `json:"intern,omitempty"`
 }
 
 func (s *Spec) Obj(typ string) *ObjSpec {
@@ -122,12 +125,30 @@ func (f *FieldSpec) GoType() reflect.Type {
 	panic("bad ret " + f.Ret)
 }
 
+var internTab sync.Map
+
+// mk returns the pool object (typ,id). With Intern the same pointer is handed out every
+// time (objects are immutable and a pure function of their id): expensive-field results are
+// then cached per object across the runs of a subscription, as they are for long-lived
+// application objects.
+func (s *Spec) mk(typ string, id int64) interface{} {
+	if !s.Intern {
+		return MkObj(typ, id)
+	}
+	k := fmt.Sprintf("%s:%d", typ, id)
+	if v, ok := internTab.Load(k); ok {
+		return v
+	}
+	v, _ := internTab.LoadOrStore(k, MkObj(typ, id))
+	return v
+}
+
 func (s *Spec) mkUnion(u string, hv uint64) reflect.Value {
 	members := UnionMembers[u]
 	m := members[hv%uint64(len(members))]
 	id := int64((hv >> 8) % uint64(s.NIds))
 	uv := reflect.New(UnionTypes[u])
-	uv.Elem().FieldByName(m).Set(reflect.ValueOf(MkObj(m, id)))
+	uv.Elem().FieldByName(m).Set(reflect.ValueOf(s.mk(m, id)))
 	return uv
 }
 
@@ -160,18 +181,18 @@ func (s *Spec) Compute(typ string, id int64, f *FieldSpec, a ArgVal) reflect.Val
 		}
 		return reflect.ValueOf(out)
 	case "obj":
-		return reflect.ValueOf(MkObj(f.Target, int64((hv>>8)%uint64(s.NIds)))).Elem()
+		return reflect.ValueOf(s.mk(f.Target, int64((hv>>8)%uint64(s.NIds)))).Elem()
 	case "pobj":
 		if isNil {
 			return reflect.Zero(f.GoType())
 		}
-		return reflect.ValueOf(MkObj(f.Target, int64((hv>>8)%uint64(s.NIds))))
+		return reflect.ValueOf(s.mk(f.Target, int64((hv>>8)%uint64(s.NIds))))
 	case "listobj", "listpobj":
 		n := int((hv >> 4) % uint64(f.MaxLen+1))
 		out := reflect.MakeSlice(f.GoType(), 0, n)
 		for i := 0; i < n; i++ {
 			hi := h(hv, i)
-			o := reflect.ValueOf(MkObj(f.Target, int64(hi%uint64(s.NIds))))
+			o := reflect.ValueOf(s.mk(f.Target, int64(hi%uint64(s.NIds))))
 			if f.Ret == "listobj" {
 				out = reflect.Append(out, o.Elem())
 			} else if f.NilElem && hi%5 == 0 {
